@@ -217,6 +217,7 @@ def run (kv : KV) : String :=
       ++ (if get kv "i_holdneed" == "1" then ["holdneed:1"] else [])
       ++ (if get kv "i_stall" == "1" then ["stall:1"] else [])
       ++ (if get kv "i_lateask" == "1" then ["lateask:1"] else [])
+      ++ (if get kv "i_lossy" == "1" then ["lossygen:1"] else [])
       ++ (if (List.range t.delivered.length).any (fun i => (script i).zeroRead) then ["zeroread:1"] else [])
       ++ (if bytes.length > 300000 then ["size:huge"] else [])
       ++ (if t.delivered.any (fun d => (d.readEnd == .err || d.readEnd == .pending) &&
